@@ -101,7 +101,26 @@ func corrupt(e *core.Env, tp *core.Tape, base *m.Address, allowEasing, allowHuge
 	p := presented{pa: base.PublicAddress, priv: base.PrivateKey}
 	p.pa.PublicKey = append(ed25519.PublicKey(nil), base.PublicKey...)
 	for {
-		switch tp.Intn(13) {
+		switch tp.Intn(14) {
+		case 13: // a key whose digest lies outside fd00::/8, presented with the digest's bytes
+			// except for the leading 1..3, which are taken from a genuine routable address: the
+			// address is inside the range and agrees with the digest everywhere else
+			for c := uint64(0); ; c++ {
+				pub, priv := ident.FromCounter(ident.Roaming, 4_000_000+c+uint64(tp.Intn(1000))*1000)
+				ip, err := m.DigestToAddress(m.AddressDigestAlg, m.AddressKeyToolID, pub, 0)
+				if err == nil && !m.BaseNetPrefix.Contains(ip) {
+					a, b := ip.As16(), base.IP.As16()
+					k := 1 + tp.Intn(3)
+					copy(a[:k], b[:k])
+					if netip.AddrFrom16(a) == ip {
+						continue
+					}
+					p.pa.IP, p.pa.PublicKey, p.priv = netip.AddrFrom16(a), pub, priv
+					break
+				}
+			}
+			p.what = "digest outside fd00::/8 moved into the range by its leading bytes"
+			e.Probe("foreign_digest_moved_into_the_range")
 		case 12: // the address of an identity that was verified a moment ago in this process (by
 			// another router of the simulation, as V itself would have before it pruned the record),
 			// now presented with the key pair of somebody else, who also signs: whatever a router
@@ -600,6 +619,13 @@ func run(e *core.Env) {
 			var acc, ign []netip.Prefix
 			for i, n := 0, 1+tp.Intn(3); i < n; i++ {
 				acc = append(acc, mkPrefix(bits-tp.Intn(2)))
+			}
+			if tp.Chance(1, 6) {
+				// a requested prefix that reaches beyond fd00::/8 (what "mycoria generate" is
+				// given is up to the user): whatever is returned must still be a valid identity
+				wide := []string{"fc00::/7", "fc00::/6", "f800::/5", "f000::/4", "8000::/1"}[tp.Intn(5)]
+				acc = []netip.Prefix{netip.MustParsePrefix(wide)}
+				e.Probe("generator_prefix_reaches_beyond_fd00")
 			}
 			for i, n := 0, tp.Intn(3); i < n; i++ {
 				if tp.Chance(1, 2) {
